@@ -177,13 +177,19 @@ func (f *FragmentBuffer) Pop() (content []byte, epoch uint16) {
 		return nil, 0
 	}
 
-	firstHeader := frags.fragmentByOffset[0].handshakeHeader
+	first, ok := frags.fragmentByOffset[0]
+	if !ok {
+		// An empty message whose only fragments sit at non-zero offsets
+		// satisfies the length checks above without having a first fragment.
+		return nil, 0
+	}
+	firstHeader := first.handshakeHeader
 	firstHeader.FragmentOffset = 0
 	firstHeader.FragmentLength = firstHeader.Length
 
 	rawHeader, _ := firstHeader.Marshal()
 
-	messageEpoch := frags.fragmentByOffset[0].recordLayerHeader.Epoch
+	messageEpoch := first.recordLayerHeader.Epoch
 
 	f.totalBufferSize -= int(frags.fragmentsLength)
 	f.totalFragmentCount -= len(frags.fragmentByOffset)
